@@ -128,7 +128,7 @@ func TestC19(t *testing.T) {
 		}
 		zb := zbuf.Bytes()
 		kinds := zipEntryKinds(zb)
-		conc := rapid.SampledFrom([]int{1, 2, 2, 3, 4, 4, 8, 16, -1}).Draw(rt, "concurrency")
+		conc := rapid.SampledFrom([]int{1, 2, 2, 3, 4, 8, 16, -1, -1, 0}).Draw(rt, "concurrency")
 		spec := drawSched(rt)
 		crashAt := -1
 		if rapid.IntRange(0, 2).Draw(rt, "docrash") != 0 {
